@@ -497,6 +497,20 @@ def step (ms : MState) (op : String) (args impl : List String) : MState × Pred 
        | some none => (bind ms slot none, .exact ["ok", "~"])
        | none => fail "getlinkh outside the modelled lookups")
     | _ => fail "getlinkh through an uninitialised holder"
+  | "haslink", [rel, holder, how, key] =>
+    -- by name or id (by handle: `haslinkh`, judged by its own rule): true exactly when the lookup of `xlinks` finds the entity
+    if how == "handle" then (ms, .skip) else
+    (match slot? ms holder, keyOf ms how key with
+     | some (some h), some k =>
+       if k.isEmpty then (ms, .skip) else
+       let cname := if rel == "ref" then "references" else if rel == "src" then "sources" else groupContainer (rel.drop 1).toString
+       let c := s.optGroup h.obj cname
+       let found : Bool :=
+         if rel == "ref" then (getReference s h.obj h.blk k).isSome
+         else if rel == "src" then (match c with | some c => s.hasGroup c k | none => false)
+         else let (nm, i) := identOfString k; (grpFind s h.obj (rel.drop 1).toString nm i).isSome
+       (ms, b01 found)
+     | _, _ => (ms, .skip))
   | "haslink", _ => (ms, .skip)
   | "getlink", _ => (ms, .skip)
   | "single", [field, holder, how, key] =>
